@@ -16,7 +16,7 @@ var baseWeights = Weights{
 	"write": 14, "write-old": 2, "rewrite-same": 2, "touch": 1, "rmfile": 4, "rmdir": 2, "mkdir": 1,
 	"add": 12, "add-all": 3, "rm": 4, "commit": 10, "branch": 2, "branch-rename": 1, "branch-delete": 1, "branch-list": 1,
 	"switch": 2, "switch-c": 1, "reset": 3, "restore": 4, "update-ref": 1, "config": 1, "status": 3, "log": 1, "reflog": 1,
-	"ls-files": 1, "rev-parse": 1, "cat-file": 1, "write-tree": 1, "hash-object": 1, "junk": 2, "edit-same-size": 2, "fd-swap": 1, "twins": 1,
+	"ls-files": 2, "rev-parse": 2, "cat-file": 1, "write-tree": 1, "hash-object": 1, "junk": 2, "edit-same-size": 2, "fd-swap": 1, "twins": 1,
 }
 
 func weights(over Weights) Weights {
